@@ -1,9 +1,65 @@
 /-
-C31 — property theorems about the tokenizer model (Model.lean); helper lemmas in Strip.lean / Lemmas.lean.
+C31 — property theorems about the tokenizer model (Model.lean).
+Grammar and layout of the round trip: Spec.lean / SpecFile.lean; helper lemmas: Lem*.lean, Strip.lean.
 -/
 import TfelVerif.C31.Strip
+import TfelVerif.C31.LemFile
 
 namespace TfelVerif.C31
+
+/-! ## (a) round trip, default options
+
+A file is a non-empty list of lines; a line is blanks followed by lexemes (`Line.std`) or a preprocessor
+directive `# keyword` followed by lexemes (`Line.pp`); each lexeme is followed by arbitrary blanks
+(`Item.ws`, any of the six `isspace` characters except that a line contains no `\n`). The lexemes (`Lx`) are
+words (identifiers, `@Keyword`s, …: any run of characters that are neither separators nor blanks and that
+does not start with a digit or `#`), decimal numbers, string literals with escapes, character literals,
+the 24 one-character, 20 two-character operators/separators of the tokenizer and `->*`, one-line C
+comments and C++ comments (with the doxygen markers `!` and `!<`). `Lx.Follow` is the must-separate
+relation: what may come directly (without a blank) after a lexeme.
+-/
+
+/-- (a) `tokenize (render ls) = ls`: every file rendered from well-formed lexemes with a layout that respects
+    the must-separate relation is tokenized into exactly the expected tokens `fileToks 1 true ls` — one per
+    lexeme, in order, with its value, its flag, its line number (from 1) and its offset in the line —
+    and the tokenizer ends in a clean state (no opened comment or raw string). -/
+theorem tokenize_render (ls : List Line) (hne : ls ≠ []) (hok : ∀ l ∈ ls, l.OK)
+    (hnl : ∀ l ∈ ls, '\n' ∉ l.render) :
+    ∃ st, tokenize dflt (renderFile ls) = .ok (fileToks 1 true ls, st) ∧
+      st.cOpen = false ∧ st.rawOpen = false := by
+  have h1 := splitLines_renderFile ls hne hnl
+  have h2 := parseLines_lines (renderFile ls) ls 1 {} rfl rfl hok
+  refine ⟨{ ({} : St) with toks := (fileToks 1 true ls).reverse ++ [] }, ?_, rfl, rfl⟩
+  simp [tokenize, h1, h2, dflt]
+
+/-- (a) one token per lexeme, in order: values and flags of the tokens of a line are those of its lexemes
+    (`empty` = no token before: the first token of a tokenizer is never flagged as a doxygen comment) -/
+theorem expToks_values (n : Nat) (is : List Item) : ∀ (empty : Bool) (o : Nat),
+    (expToks n empty o is).map (fun t => t.value) = is.map (fun i => i.lx.value) ∧
+    (expToks n empty o is).map (fun t => t.line) = is.map (fun _ => n) ∧
+    ((expToks n empty o is).map (fun t => t.flag)).tail = (is.map (fun i => i.lx.flag false)).tail := by
+  induction is with
+  | nil => intro _ _; simp [expToks]
+  | cons i is ih =>
+    intro empty o
+    obtain ⟨h1, h2, h3⟩ := ih false (o + i.lx.text.length + i.ws.length)
+    refine ⟨by simp [expToks, h1], by simp [expToks, h2], ?_⟩
+    simp only [expToks, List.map_cons, List.tail_cons]
+    cases is with
+    | nil => simp [expToks]
+    | cons j js =>
+      simp only [expToks, List.map_cons, List.tail_cons] at h3 ⊢
+      rw [h3]
+
+/-- (a) positions: the offset of the first token of a run of items is the offset of its lexeme (plus, for
+    a comment, the `/*`/`//`, marker and blanks before its text); the next lexeme starts after the text and
+    the blanks of this one -/
+theorem expToks_offsets (n : Nat) (empty : Bool) (o : Nat) (i : Item) (is : List Item) :
+    expToks n empty o (i :: is) =
+      ⟨i.lx.value, n, o + i.lx.skip, i.lx.flag empty, []⟩ ::
+        expToks n false (o + i.lx.text.length + i.ws.length) is := rfl
+
+/-! ## (b) `stripComments` -/
 
 /-- (b) `stripComments` removes exactly the comment tokens: what is left is, token for token (value, line,
     offset, flag), the list of the non-comment tokens in their original order. (Only the documentation
@@ -28,5 +84,40 @@ theorem stripComments_leaves_no_comment (ts : List Tok) :
 
 example : (stripComments [⟨['a'], 1, 0, .comment, []⟩, ⟨['x'], 1, 3, .standard, []⟩,
     ⟨['d'], 1, 5, .doxygenBack, []⟩]).map Tok.core = [(['x'], 1, 3, .standard)] := by decide
+
+/-! ## non-vacuity of (a): a two-line file satisfying every hypothesis -/
+
+/-- ` x =1.5;// c` / `#if X` -/
+def sampleFile : List Line :=
+  [.std [' '] [⟨.word ['x'], [' ']⟩, ⟨.op1 '=', []⟩, ⟨.num ⟨['1'], some ['5'], none⟩, []⟩, ⟨.op1 ';', []⟩,
+      ⟨.cxxcom .none [' '] ['c'], []⟩],
+   .pp [] [] ['i', 'f'] [' '] [⟨.word ['X'], []⟩]]
+
+example : tokenize dflt (renderFile sampleFile) =
+    .ok ([⟨['x'], 1, 1, .standard, []⟩, ⟨['='], 1, 3, .standard, []⟩, ⟨['1', '.', '5'], 1, 4, .number, []⟩,
+          ⟨[';'], 1, 7, .standard, []⟩, ⟨['c'], 1, 11, .comment, []⟩, ⟨['#'], 2, 0, .preproc, []⟩,
+          ⟨['i', 'f'], 2, 1, .preproc, []⟩, ⟨['X'], 2, 4, .standard, []⟩],
+         { toks := (fileToks 1 true sampleFile).reverse }) := by rfl
+
+example : fileToks 1 true sampleFile =
+    [⟨['x'], 1, 1, .standard, []⟩, ⟨['='], 1, 3, .standard, []⟩, ⟨['1', '.', '5'], 1, 4, .number, []⟩,
+     ⟨[';'], 1, 7, .standard, []⟩, ⟨['c'], 1, 11, .comment, []⟩, ⟨['#'], 2, 0, .preproc, []⟩,
+     ⟨['i', 'f'], 2, 1, .preproc, []⟩, ⟨['X'], 2, 4, .standard, []⟩] := by rfl
+
+/-- the sample file satisfies the hypotheses of `tokenize_render` -/
+example : sampleFile ≠ [] ∧ (∀ l ∈ sampleFile, l.OK) ∧ (∀ l ∈ sampleFile, '\n' ∉ l.render) := by
+  refine ⟨by simp [sampleFile], ?_, ?_⟩
+  · intro l hl
+    simp only [sampleFile, List.mem_cons, List.not_mem_nil, or_false] at hl
+    rcases hl with rfl | rfl
+    · simp [Line.OK, ItemsOK, Lx.OK, Lx.Follow, allSpaces, allDigits, Num.OK, comHeadOK, renderItems, Lx.text,
+        Num.text, Num.fracText, Num.expText, Marker.text, ops1, join1]
+      decide
+    · simp [Line.OK, ItemsOK, Lx.OK, Lx.Follow, allSpaces, renderItems, Lx.text, ppKeywords]
+      decide
+  · intro l hl
+    simp only [sampleFile, List.mem_cons, List.not_mem_nil, or_false] at hl
+    rcases hl with rfl | rfl <;>
+      simp [Line.render, renderItems, Lx.text, Num.text, Num.fracText, Num.expText, Marker.text]
 
 end TfelVerif.C31
